@@ -107,6 +107,8 @@ func vRequest(K int, name string) (*shard.UpdateTargetsRequest, map[uint64]*vReq
 	return req, want
 }
 
+func vCfgManager() *prom.ConfigManager { return prom.NewConfigManager() }
+
 func vService(tm *TargetsManager, head int64, headErr bool) *Service {
 	return &Service{
 		targetManager: tm,
